@@ -368,7 +368,7 @@ def check_retain(n0: bool, n1: bool, n2: bool, p0: bool, p1: bool, p2: bool, k0:
     return V.verdict(ok, fact)
 
 
-DATE_EXPRS = (3, 4, 14, 17)
+DATE_EXPRS = (3, 14)
 
 
 def PLAN(tier):
